@@ -564,3 +564,12 @@ pub(crate) fn empty_set_any_fields() -> ManuallyDrop<Set> {
         iteration_span: tracing::Span::none(),
     })
 }
+
+/// Two fresh threads (zero clocks), thread 0 active.
+pub(crate) fn zero_set2() -> ManuallyDrop<Set> {
+    let eid = execution::Id::new();
+    let mut threads = Vec::with_capacity(MAX_THREADS);
+    threads.push(fresh_thread(eid, 0));
+    threads.push(fresh_thread(eid, 1));
+    ManuallyDrop::new(Set { execution_id: eid, threads, active: Some(0), seq_cst_causality: zero_vv(), iteration_span: tracing::Span::none() })
+}
